@@ -294,6 +294,39 @@ fn redelegation_to_a_validator_with_an_older_reward_clock() {
     witness("end");
 }
 
+/// found missing by seed C15k: after a slash the validator's whole-token total and the delegators'
+/// fixed-point stakes differ; a delegator left alone on the validator (the other one's sub-token rest is
+/// dropped when its unbonding matures) still earns on its OWN stake — never more than the ideal
+fn sole_staker_left_after_slash_and_maturity() {
+    let mut cfg = Cfg::default();
+    cfg.apr = 10 * E18; // 1000 % a year: a fraction of a token of stake is worth tokens of reward
+    let mut w = Stk::new(cfg);
+    w.track_rewards = true;
+    for a in [3u128, 2, 1] {
+        w.fixed_amounts.push_back(a);
+    }
+    for op in [
+        Op::Delegate { d: 0, v: 0 },
+        Op::Delegate { d: 1, v: 0 },
+        Op::Undelegate { d: 1, v: 0 },
+        Op::Slash { v: 0, p: PSel::Fixed(E18 / 2) },
+        Op::Advance { dt: DtSel::Fixed(61) },
+        Op::Advance { dt: DtSel::Sym(0, 400 * 86_400) },
+        Op::Withdraw { d: 0, v: 0 },
+    ] {
+        if !w.apply(&op, AMT) {
+            return;
+        }
+        // only the upper bound is claimed once a slash has happened (props: outside the bound)
+        if matches!(op, Op::Slash { .. }) {
+            w.lower_void = [[true; 2]; 2];
+        }
+        w.check_reward_bounds("", false);
+        w.check_balances("");
+    }
+    witness("end");
+}
+
 pub fn scenarios(tier: &str) -> Vec<Scenario> {
     let mut v = vec![];
     v.push(Scenario::new("partial_unbonding_matures_then_withdraw", &["withdraw_ok", "unbonding_paid", "end"], partial_unbonding_then_withdraw));
@@ -314,6 +347,7 @@ pub fn scenarios(tier: &str) -> Vec<Scenario> {
     v.push(Scenario::new("strict_wording_at_a_whole_token_ideal_stake_700800000_for_59_seconds", &["end"], strict_wording_witness));
     v.push(Scenario::new("withdrawal_after_a_rolled_back_withdraw_address_change", &["address_change_rolled_back", "withdraw_ok", "end"], rolled_back_withdraw_address_change));
     v.push(Scenario::new("redelegation_to_a_validator_with_an_older_reward_clock", &["redelegate_ok", "end"], redelegation_to_a_validator_with_an_older_reward_clock));
+    v.push(Scenario::new("sole_staker_left_after_a_slash_and_a_matured_unbonding", &["slash_ok", "unbonding_paid", "end"], sole_staker_left_after_slash_and_maturity));
     v.push(Scenario::new("split_independence", &["end"], || split(true)));
     v.push(Scenario::new("split_independence_subsecond_block_times", &["end"], split_subsecond));
     if tier == "thorough" {
